@@ -182,8 +182,18 @@ class Cmp:
             return Fraction(x)
         return None
 
+    _bits = re.compile(r"^[01]{10,}$")
+
     def diff(self, a, b, path="$"):
         """None if equal else a description of the first difference."""
+        if isinstance(a, str) and isinstance(b, str) and self._bits.match(a) and self._bits.match(b):
+            # long 0/1 strings are mask bit strings, not numbers: a relative tolerance on the "number" would
+            # hide differences in the late pixels
+            if a == b:
+                self.exact += 1
+                return None
+            k = next((i for i, (x, y) in enumerate(zip(a, b)) if x != y), min(len(a), len(b)))
+            return f"{path}: bit strings differ at position {k} (lengths {len(a)}, {len(b)})"
         na, nb = self._num(a), self._num(b)
         if na is not None and nb is not None:
             if na == nb:
